@@ -170,11 +170,14 @@ def check(case, ctx):
         else:
             fn = lambda: percentile(a, case["q"], axis=axis)
     else:
-        label = "a.%s(axis=%r, skipna=%r)" % (f, axis, skipna)
+        import zlib
+        # the flag as a NumPy boolean (what `np.isnan(x).any()` returns) one time in three
+        sk_arg = np.bool_(skipna) if zlib.crc32(repr((f, axis, case.get("pat"), v.shape)).encode()) % 3 == 0 else skipna
+        label = "a.%s(axis=%r, skipna=%r)" % (f, axis, sk_arg)
         if mode == 'none' and case.get("pat") in ('none', 'dense'):
-            fn = lambda: getattr(a, f)(skipna=skipna)      # axis=None is the default
+            fn = lambda: getattr(a, f)(skipna=sk_arg)      # axis=None is the default
         else:
-            fn = lambda: getattr(a, f)(axis=axis, skipna=skipna)
+            fn = lambda: getattr(a, f)(axis=axis, skipna=sk_arg)
     label += " on %s%s dims=%r nan=%s" % (v.dtype, v.shape, m.dims, case["pat"])
     res, exc = ctx.call(label, fn, operands=(a,), meta='carry', ambient=True)
     allones = bool(keep) and all(v.shape[i] == 1 for i in keep)
